@@ -40,7 +40,7 @@ def run(ctx):
         "accepted packet' is cryptographic and NOT a theorem: the theorems show the acceptance set equals the image of the "
         "specification's sealing under the key",
         "Go's int is modelled as unbounded (64-bit platform; packet lengths below 2^63)",
-        "the theorems describe DeserializeEncrypted after pending_fixes/C04-declared-length-bounds.patch; the model of the code "
+        "the theorems describe DeserializeEncrypted after the D3 repair (fix: commit 095a0e6 in /repo); the model of the code "
         "as found (openClientOrig) is kept for the two D3 counterexample theorems",
     ]
     return vlib.generic_check(ctx, SUB, MODULES, THEOREMS, RULE,
